@@ -631,9 +631,20 @@ func (rule *RuleExpression) checkIfCondition(str *String, workflowKey string) {
 		}
 
 		p := NewExprParser()
-		expr, err := p.Parse(NewExprLexer(src))
+		l := NewExprLexer(src)
+		expr, err := p.Parse(l)
 		if err != nil {
 			rule.exprError(err, line, col)
+			return
+		}
+		if off := l.Offset(); off < len(src) {
+			// "}}" in the middle of the condition ended lexing. The rest of the condition was not parsed
+			rule.exprError(&ExprError{
+				Message: "unexpected \"}}\" in \"if\" condition. the condition must be a single expression",
+				Offset:  off - 2,
+				Line:    1,
+				Column:  off - 1,
+			}, line, col)
 			return
 		}
 
